@@ -4,7 +4,7 @@ import re
 
 from ..core import AnalysisError, norm
 from ..sim import check_reach
-from .common import (effects, paths_of, check_writers, arg_by_name, named_call_sites)
+from .common import (effects, paths_of, check_writers, arg_by_name, named_call_sites, paths_for_input)
 
 CTRL = 'frontends.tui.controller.Controller'
 PROTECTED = {'display_matcher', 'stop_matcher', 'current_connection', 'all_messages', 'message_list', 'db', 'open_connections',
@@ -66,25 +66,42 @@ def run(ctx):
     # ---- C11.6 matcher choice and arguments (list_command) --------------------------------------------------
     lpaths = paths_of(repo, f_list)
     nl = 0
-    for p in lpaths:
-        for e in p.events:
-            if e.kind == 'call' and e.ftext == 'self.show_messages':
+    # the argument of `list` is `[matcher] [~ N]`: decided by folding the (pure string) terms of list_command for each shape of argument
+    from ..peval import fold, Unfoldable
+    SHAPES = [('', None, None), ('wl_surface', 'wl_surface', None), ('wl_surface ~ 3', 'wl_surface ', 3), ('~3', None, 3), ('a~2~3', 'a', None), ('x ~ 12', 'x ', 12)]
+    for sample, want_m, want_cap in SHAPES:
+        hits = 0
+        for p in paths_for_input(lpaths, {'arg': sample}):
+            for e in p.events:
+                if not (e.kind == 'call' and e.ftext == 'self.show_messages'):
+                    continue
+                hits += 1
                 nl += 1
-                has_arg = [v for a, v in p.decisions if a.text in ("arg.split('~')[0]",)]
-                m = e.argtext(1)
-                if has_arg and has_arg[0]:
-                    good = m == "self.parse_and_join(arg.split('~')[0], None)"
-                else:
-                    good = m == 'self.display_matcher' and bool(has_arg)
-                ctx.check(good, 'C11.6', 'list:matcher:%s' % (has_arg[0] if has_arg else '?'), f_list.loc(e.node),
+                got = {k: arg_by_name(e, f_showm, k) for k in ('connection', 'matcher', 'cap')}
+                m = got['matcher']
+                good = False
+                desc = norm(m)
+                try:
+                    if want_m is None:
+                        good = norm(m) == 'self.display_matcher'
+                    else:
+                        good = isinstance(m, ast.Call) and norm(m.func) == 'self.parse_and_join' and len(m.args) == 2 and norm(m.args[1]) == 'None' and fold(m.args[0], {'arg': sample}) == want_m
+                        if isinstance(m, ast.Call) and m.args:
+                            desc = '%s(%r, %s)' % (norm(m.func), fold(m.args[0], {'arg': sample}), ', '.join(norm(x) for x in m.args[1:]))
+                except Unfoldable as ex_:
+                    desc += ' [%s]' % ex_
+                ctx.check(good, 'C11.6', 'list:matcher:%s' % (want_m is not None), f_list.loc(e.node),
                           'with an argument the matcher is parsed on its own (no join with the filter), otherwise the current filter is used',
-                          'listing uses matcher %s (argument given: %s)' % (m, has_arg))
-                ctx.check(e.argtext(0) == 'self.current_connection', 'C11.2', 'list:selected-connection', f_list.loc(e.node),
-                          'the listing is restricted to the selected connection', 'listing passes connection %s' % e.argtext(0))
-                two = [v for a, v in p.decisions if a.text in ("2 == len(arg.split('~'))", "1 == len(arg.split('~')[1:])")]
-                c = (e.argtext(2) or '').replace("[1:][0]", "[1]")
-                want = "int(arg.split('~')[1])" if (two and two[0]) else 'None'
-                ctx.check(c == want and bool(two), 'C11.4', 'list:cap-parse:%s' % want, f_list.loc(e.node), 'cap is the number after ~ (or absent)', 'cap is %s' % c)
+                          '`list %s` uses matcher %s' % (sample, desc))
+                ctx.check(norm(got['connection']) == 'self.current_connection', 'C11.2', 'list:selected-connection', f_list.loc(e.node),
+                          'the listing is restricted to the selected connection', 'listing passes connection %s' % norm(got['connection']))
+                try:
+                    capv = fold(got['cap'], {'arg': sample}) if got['cap'] is not None else None
+                except Unfoldable as ex_:
+                    capv = 'unfoldable: %s' % ex_
+                ctx.check(capv == want_cap and type(capv) is type(want_cap), 'C11.4', 'list:cap-parse:%s' % ('N' if want_cap is not None else 'None'), f_list.loc(e.node),
+                          'cap is the number after ~ (or absent)', '`list %s` passes cap %r (%s), expected %r' % (sample, capv, norm(got['cap']), want_cap))
+        ctx.check(hits >= 1, 'C11.6', 'list:shape-handled:%s' % (sample or 'empty'), f_list.loc(), '`list %s` reaches the listing' % sample, '`list %s` shows nothing (no path reaches show_messages)' % sample)
     ctx.floor('C11.6', nl, 4, 'show_messages calls from list_command')
 
     # the all-connections record is complete (same obligation as C06.1) and connection.messages() is the connection's record
@@ -117,67 +134,68 @@ def run(ctx):
         ctx.check(src == want, 'C11.2', 'source:%s' % want, f_get.loc(), 'messages come from %s' % want, 'messages come from %s (selection=%s)' % (src, sel[0]))
 
     # ---- C11.3 order, C11.5 counts, C11.4 cap ----------------------------------------------------------------------
+    # Per path (a scan of up to N messages with the matcher's verdicts decided): the returned list, folded element by element, must be
+    # exactly the scanned messages the matcher accepted, oldest first; the three counts, folded to numbers, must be the number
+    # accepted, the number rejected and the number of recorded messages minus the number scanned.
+    from ..sim import deep_norm, deep_ast
+    from ..peval import fold, Unfoldable
+    BIG = 1000
+    n_sem = 0
     for p in rets:
         rv = p.outcome[1]
         if not (isinstance(rv, ast.Tuple) and len(rv.elts) == 4):
             ctx.violation('C11.5', 'result:shape', f_get.loc(), '_get_matching returns %s' % norm(rv)[:100])
             continue
         lst, matched, didnt, notchk = rv.elts
-        iters = [e for e in p.events if e.kind == 'loop-iter']
-        itsym = iters[0].value if iters else None
-        if itsym is None:
-            ex = [e for e in p.events if e.kind == 'call' and isinstance(e.node.func, ast.Name) and e.node.func.id == 'reversed']
-        # order parity
-        acc_name = None
-        m = re.match(r'^list\(reversed\((\w+)\)\)$|^(\w+)\[::-1\]$|^(\w+)$', norm(lst))
-        par_result = rev_count(lst)
-        par_iter = rev_count(itsym) if itsym is not None else None
-        muts = [e for e in p.events if e.kind == 'call' and e.ftext and e.ftext.split('.')[-1] in ('insert', 'reverse', 'sort', 'extend', 'pop', 'remove')]
-        if par_iter is not None:
-            ctx.check((par_result + par_iter) % 2 == 0 and not muts, 'C11.3', 'order:parity', f_get.loc(),
-                      'an even number of reversals lies between the record and the listing (oldest first)',
-                      'listing order is reversed: %d reversal(s) on the scan, %d on the result, other reordering %s' % (par_iter, par_result, [e.text[:30] for e in muts]))
-            if any(e.kind == 'loop-break' for e in p.events):
-                ctx.check(par_iter % 2 == 1, 'C11.3', 'order:cap-keeps-newest', f_get.loc(),
-                          'a scan that can stop early runs newest-first, so a cap keeps the last N',
-                          'the capped scan runs oldest-first and would keep the first N')
-        # per iteration: append xor didnt_match += 1, decided by the matcher on the iteration's element
-        n_app = n_no = 0
-        okiter = True
-        for e in iters:
-            k = e.extra
-            body = [x for x in p.events if x.loops and x.loops[-1] == e.loops[-1] and x.kind in ('call', 'aug')]
-            dec = [v for a, v in p.decisions if re.match(r'^matcher\.matches\(<elem%d of ' % k, a.text)]
-            apps = [x for x in body if x.kind == 'call' and x.ftext and x.ftext.endswith('.append')]
-            augs = [x for x in body if x.kind == 'aug' and x.target == 'didnt_match']
-            if not dec:
-                okiter = False
-                continue
-            if dec[0]:
-                n_app += 1
-                okiter &= len(apps) == 1 and not augs and bool(re.match(r'^<elem%d of ' % k, apps[0].argtext(0) or ''))
-            else:
-                n_no += 1
-                okiter &= len(augs) == 1 and not apps and norm(augs[0].value) == '1' and augs[0].extra == 'Add'
-        ctx.check(okiter, 'C11.5', 'scan:append-xor-count', f_get.loc(),
-                  'each scanned message is either collected (matcher true) or counted as not matching (matcher false), never both',
-                  'scan bookkeeping is wrong on path %s' % p.describe()[:200])
-        accs = {norm(x.recv) for x in p.events if x.kind == 'call' and x.ftext and x.ftext.endswith('.append')}
-        ml = re.match(r'^(?:list\(reversed\((\w+)\)\)|(\w+)\[::-1\]|(\w+))$', norm(lst))
-        acc = next(iter(accs)) if len(accs) == 1 else ((ml.group(1) or ml.group(2) or ml.group(3)) if ml else 'acc')
-        ctx.check(norm(matched) == 'len(%s)' % acc and acc in norm(lst), 'C11.5', 'counts:matched-is-len', f_get.loc(),
-                  'the matched count is the length of the returned list', 'matched count is %s for list %s' % (norm(matched), norm(lst)))
-        ld = lin(didnt, None)
-        ctx.check(ld is not None and set(ld) <= {''} and ld.get('', 0) == n_no, 'C11.5', 'counts:didnt-match', f_get.loc(),
-                  'the didn\'t-match count equals the number of scanned messages the matcher rejected', 'didnt_match = %s after %d rejections' % (norm(didnt), n_no))
-        # identity: notchk + matched + didnt == len(messages)
-        total = ast.BinOp(left=ast.BinOp(left=notchk, op=ast.Add(), right=matched), op=ast.Add(), right=didnt)
-        lf = lin(total, None)
-        srcs = [k for k in (lf or {}) if k.startswith('len(') and k != 'len(%s)' % acc]
-        good = lf is not None and len(srcs) == 1 and lf.get(srcs[0]) == 1 and all(v == 0 for k, v in lf.items() if k != srcs[0]) \
-            and srcs[0] in ('len(connection.messages())', 'len(tuple(self.all_messages))')
-        ctx.check(good, 'C11.5', 'counts:sum-identity', f_get.loc(), 'matched + didn\'t match + not checked == number of recorded messages',
-                  'the three counts sum to %s' % lf)
+        verdicts = []       # (k, element text, verdict) in scan order
+        for a_, v_ in p.decisions:
+            m_ = re.match(r'^matcher\.matches\((<elem(\d+) of (.*)>)\)$', a_.text)
+            if m_:
+                verdicts.append((int(m_.group(2)), m_.group(1), v_, m_.group(3)))
+        scans = [e for e in p.events if e.kind == 'loop-iter' and e.value is not None and not (e.loops and len(e.loops) > 1)]
+        n_iter = len(scans)
+        if n_iter != len(verdicts):
+            ctx.violation('C11.5', 'scan:every-message-judged', f_get.loc(), 'the scan runs %d iteration(s) but asks the matcher %d time(s) on path %s' % (n_iter, len(verdicts), p.describe()[:160]))
+            continue
+        n_sem += 1
+        src = verdicts[0][3] if verdicts else None
+        newest_first = src is not None and rev_count(ast.parse(src, mode='eval').body) % 2 == 1
+        accepted = [t for k, t, v, _ in verdicts if v]
+        want_list = list(reversed(accepted)) if newest_first else accepted
+        le = deep_ast(lst)
+        lt = norm(le)
+        got_list = [norm(x) for x in le.elts] if isinstance(le, (ast.List, ast.Tuple)) else None
+        if got_list is None and not verdicts and re.match(r'^(list\(reversed\(\w+\)\)|\w+|\w+\[::-1\])$', lt):
+            got_list = []
+        ctx.check(got_list == want_list, 'C11.3', 'order:parity', f_get.loc(),
+                  'the list returned is exactly the scanned messages the matcher accepted, oldest first',
+                  'with verdicts %s (scan %s) the list returned is %s, expected %s' % ([v for _, _, v, _ in verdicts], 'newest first' if newest_first else 'oldest first', lt[:160], want_list))
+        if any(e.kind == 'loop-break' for e in p.events):
+            ctx.check(newest_first, 'C11.3', 'order:cap-keeps-newest', f_get.loc(),
+                      'a scan that can stop early runs newest-first, so a cap keeps the last N', 'the capped scan runs oldest-first and would keep the first N')
+        texts = {}
+        for x in ast.walk(rv):
+            if isinstance(x, ast.Call) and isinstance(x.func, ast.Name) and x.func.id == 'len' and len(x.args) == 1:
+                t_ = norm(x.args[0])
+                sel_ = [v for a2, v in p.decisions if a2.text == 'connection'] + [not v for a2, v in p.decisions if a2.text == 'connection is None']
+                legit = ('connection.messages()',) if (sel_ and sel_[0]) else ('tuple(self.all_messages)', 'self.all_messages')
+                if t_ in legit:
+                    texts[norm(x)] = BIG        # the length of the record that this path scans
+
+        def num(sym):
+            try:
+                return fold(deep_ast(sym), {}, texts)
+            except (Unfoldable, SyntaxError) as ex_:
+                return 'unfoldable: %s' % ex_
+        n_yes = sum(1 for _, _, v, _ in verdicts if v)
+        n_no = n_iter - n_yes
+        ctx.check(num(matched) == n_yes, 'C11.5', 'counts:matched-is-len', f_get.loc(), 'the matched count is the number of messages returned',
+                  'matched count is %s = %s after %d acceptances' % (norm(matched), num(matched), n_yes))
+        ctx.check(num(didnt) == n_no, 'C11.5', 'counts:didnt-match', f_get.loc(),
+                  'the didn\'t-match count equals the number of scanned messages the matcher rejected', 'didnt_match = %s = %s after %d rejections' % (norm(didnt), num(didnt), n_no))
+        ctx.check(bool(texts) and num(notchk) == BIG - n_iter, 'C11.5', 'counts:sum-identity', f_get.loc(), 'matched + didn\'t match + not checked == number of recorded messages',
+                  'not-checked count is %s = %s after %d scanned of %d recorded' % (norm(notchk), num(notchk), n_iter, BIG))
+    ctx.floor('C11.5', n_sem, 8, 'scan paths of _get_matching evaluated')
 
     def m_cap(a):
         t = a.text
